@@ -44,7 +44,7 @@ def run(rep):
     target_time(rep, mir, L)
     from .pool import pool_scripts
     from ..driver import parts
-    parts(rep, [lambda: pool_scripts(rep, mir, L, 5 if rep.tier == 'quick' else 7)])
+    parts(rep, [lambda: pool_scripts(rep, mir, L, 5 if rep.tier == 'quick' else 7), lambda: chain_draw(rep, mir, L)])
 
 def target_time(rep, mir, L):
     """target_integration_time = Some(t): the derived depth limits never exceed options.maxdepth (loop-free part of draw)"""
@@ -90,3 +90,66 @@ def target_time(rep, mir, L):
         else: rep.holds(name)
         # the unwrap() of to_u64 can only fail for NaN/negative/huge values of log2(max_steps): reported as a cover, not claimed
         rep.notes.append('target_time: %d paths, %d panic paths (to_u64().unwrap() on a non-representable log2 value: requires NaN/inf, outside the R policy)' % (len(outs), len(pan)))
+
+def chain_draw(rep, mir, L):
+    """C03(4): NutsChain::draw returns the position of the state the tree returned, adapts with it and the pre-increment draw counter, stores it as the
+    start of the next trajectory together with its SampleInfo, and reports diverging/draw/chain from them; an Err of the tree changes nothing"""
+    from ..vm import VM, Machine, Struct, Enum, Seq, Ref, Opaque, UNIT, NONE, SOME, OK, ERR, ret
+    from ..alg import RealAlg
+    from ..mathenv import install_misc
+    A = RealAlg(); vm = VM(mir, A); install_misc(vm)
+    fn = mir.method('NutsChain', 'Chain', 'draw'); bad = []; n = 0
+    for div in (True, False):
+        for ok in (True, False):
+            m = Machine(); m.ghost['events'] = []
+            new_state = Struct(('returned state',), 'StateTok'); old_state = Struct(('previous state',), 'StateTok')
+            info = L.make('SampleInfo', {'depth': z3.Int('depth'), 'divergence_info': SOME(Struct((), 'DivergenceInfo')) if div else NONE(), 'reached_maxdepth': z3.Bool('maxd')})
+            def tree_draw(vm, m, c, a, ok=ok, info=info):
+                init = vm.read_at(m, a[1].cell, a[1].path); m.log('events', ('tree_draw', init.f[0]))
+                return ret(m, OK(Struct((new_state, info))) if ok else Enum(1, 'Err', (Struct((), 'NutsError'),), 'Result'))
+            vm.models = [x for x in vm.models if x[0].pattern != r'^draw::<']
+            vm.add_model(r'^draw::<', tree_draw)
+            vm.add_model(r'^RefCell::<M>::borrow_mut$', lambda vm, m, c, a: ret(m, Struct((Ref(m.ghost['math']),), 'RefMut')))
+            vm.add_model(r'^<RefMut<.*> as DerefMut>::deref_mut$', lambda vm, m, c, a: ret(m, vm.read_at(m, a[0].cell, a[0].path).f[0]))
+            vm.add_model(r'^<M as Math>::dim$', lambda vm, m, c, a: ret(m, 2))
+            vm.add_model(r'^std::vec::from_elem::<f64>$', lambda vm, m, c, a: ret(m, Seq([a[0]] * a[1])))
+            def write_position(vm, m, c, a):
+                st = vm.read_at(m, a[0].cell, a[0].path); m.log('events', ('write_position', st.f[0])); return ret(m, UNIT)
+            vm.add_model(r'::write_position$', write_position)
+            vm.add_model(r'^<Vec<f64> as Into<Box<\[f64\]>>>::into$', lambda vm, m, c, a: ret(m, Struct((Struct((__import__('mirsmt.vm', fromlist=['SliceRef']).SliceRef(m.alloc(a[0]), (), 0, len(a[0].items)),)), UNIT), 'Box')))
+            def adapt(vm, m, c, a):
+                st = vm.read_at(m, a[6].cell, a[6].path); m.log('events', ('adapt', a[4], st.f[0])); return ret(m, OK(UNIT))
+            vm.add_model(r'^<A as AdaptStrategy<M>>::adapt::<R>$', adapt)
+            vm.add_model(r'^<A as AdaptStrategy<M>>::is_tuning$', lambda vm, m, c, a: ret(m, z3.Bool('tuning_after_adapt') if any(e[0] == 'adapt' for e in m.ghost['events']) else z3.Bool('tuning_before_adapt')))
+            vm.add_model(r'^<A as AdaptStrategy<M>>::last_num_steps$', lambda vm, m, c, a: ret(m, z3.Int('num_steps')))
+            vm.add_model(r' as Hamiltonian<M>>::step_size$', lambda vm, m, c, a: ret(m, A.fresh('step_size')))
+            m.ghost['math'] = m.alloc(Opaque('math'))
+            chain = {f: Opaque(f) for f in L.fields('NutsChain')}
+            dc = z3.Int('draw_count'); chain.update({'state': old_state, 'last_info': NONE(), 'chain': z3.Int('chain_id'), 'draw_count': dc, 'math': Opaque('refcell')})
+            cc = m.alloc(L.make('NutsChain', chain)); m.pc += [dc >= 0, dc < 2 ** 40]
+            outs = vm.run(fn, [Ref(cc)], m); n += len(outs)
+            for (m2, k, v) in outs:
+                ev = m2.ghost['events']; after = m2.mem[cc]; g = lambda f: L.get('NutsChain', after, f)
+                if k != 'ret': bad.append(('NutsChain::draw panics', str(v)[:100])); continue
+                td = [e for e in ev if e[0] == 'tree_draw']
+                if len(td) != 1 or td[0][1] != 'previous state': bad.append(('the trajectory does not start from the stored state of the previous draw', ev))
+                if not ok:
+                    if v.name != 'Err': bad.append(('an Err of the tree is swallowed',))
+                    if g('state').f[0] != 'previous state' or not z3.eq(g('draw_count') + 0, dc + 0): bad.append(('a failed draw changes the chain state',))
+                    continue
+                if v.name != 'Ok': bad.append(('draw returns Err although the tree succeeded',)); continue
+                pos, prog = v.f[0].f; gp = lambda f: L.get('Progress', prog, f)
+                wp = [e for e in ev if e[0] == 'write_position']; ad = [e for e in ev if e[0] == 'adapt']
+                if len(wp) != 1 or wp[0][1] != 'returned state': bad.append(('the returned position is not that of the state the tree returned', ev))
+                if len(ad) != 1 or ad[0][2] != 'returned state' or not z3.eq(z3.simplify(ad[0][1] + 0), z3.simplify(dc + 0)): bad.append(('adapt() is not called once with the returned state and the current draw index', ev))
+                if g('state').f[0] != 'returned state': bad.append(('the next trajectory would not start from the returned draw',))
+                li = g('last_info')
+                if li.name != 'Some' or not vm._same(li.f[0], info): bad.append(('last_info is not the SampleInfo of this trajectory',))
+                sol = z3.Solver(); sol.add(*m2.pc); sol.add(z3.Or(g('draw_count') != dc + 1, gp('draw') != dc, gp('chain') != z3.Int('chain_id'), gp('num_steps') != z3.Int('num_steps'),
+                                                              (gp('tuning') if z3.is_expr(gp('tuning')) else z3.BoolVal(gp('tuning'))) != z3.Bool('tuning_after_adapt')))
+                if sol.check() != z3.unsat: bad.append(('draw counter / Progress fields wrong', str(sol.model())[:200]))
+                dv = gp('diverging')
+                if (dv is True) != div: bad.append(('Progress.diverging differs from the presence of divergence info', div, str(dv)))
+    rep.paths += n; rep.absorb_vm(vm)
+    if bad: rep.violated('C03.4 NutsChain::draw bookkeeping', 'chain_draw', 'NutsChain::draw: %s' % (bad[0],), model={'problems': [str(b)[:300] for b in bad[:5]]})
+    else: rep.holds('C03.4 NutsChain::draw: position/adapt/next start/last_info all refer to the state and info the tree returned; draw counter +1; Progress fields from them; tree Err leaves the chain unchanged (%d paths)' % n)
